@@ -12,7 +12,8 @@ RULE = ('random block-sparse Hermitian (general for Arnoldi/GMRES) operators of 
         'wrapped so that every matvec is recorded; random start vectors in a random charge sector; all option values '
         '(N_min, N_max, N_cache, reortho, E_shift, cutoff, which, num_ev), real/imaginary/complex exponents; dense eigh/eig/expm '
         'restricted to the sector as ground truth. non-trivial = sector dimension >= 3; distinct = (solver, options, dim, structure)'
-        ' Also: GMRES right-hand sides of any scale (non-finite results are verdicts), operator wrappers through matvec / to_matrix / adjoint incl. Boost, FlatLinearOperator over all sectors, one-dimensional Krylov spaces with E_shift, projector around nested wrappers.')
+        ' Also: GMRES right-hand sides of any scale (non-finite results are verdicts), operator wrappers through matvec / to_matrix / adjoint incl. Boost, FlatLinearOperator over all sectors, one-dimensional Krylov spaces with E_shift, projector around nested wrappers.'
+        ' Round 5: Lanczos iterations forced past convergence without re-orthogonalisation (norm of ground state and of the evolved state).')
 ASSUMPTIONS = ['numpy eigh / scipy expm on the dense sector block as ground truth',
                'degenerate extremal eigenvalues are handled by projecting on the eigenspace']
 ANCHORS = {'tenpy/linalg/krylov_based.py': ['*'], 'tenpy/linalg/sparse.py': ['*']}
